@@ -35,6 +35,18 @@ if 0 < len(miss) <= 6:
     try: passed|=passed_in(j2)
     except Exception: pass
     miss=sorted(want-passed)
+    if miss:
+        # still missing: does the same test fail on the unchanged tree right now (machine load, not the change)?
+        names=sorted({m.split("::")[-1].split("[")[0] for m in miss})
+        j3=sys.argv[1]+".3"
+        subprocess.run(["/venv/bin/python","-m","pytest","-q","-p","no:cacheprovider","--timeout=900","--continue-on-collection-errors",
+                        "-k"," or ".join(names),"--junitxml="+j3],cwd="/repo",stdout=subprocess.DEVNULL,stderr=subprocess.DEVNULL)
+        try:
+            base_pass=passed_in(j3)
+            flaky=[m for m in miss if m not in base_pass]
+            miss=[m for m in miss if m in base_pass]
+            if flaky: print("load_flaky_on_unchanged_tree_too="+",".join(f.split("::")[-1] for f in flaky), end=" ")
+        except Exception: pass
 print(f"suite_missing={len(miss)}" + ("" if not miss else ":"+",".join(m.split('::')[-1] for m in miss[:4])))
 PY
 )
@@ -46,5 +58,5 @@ for C in $CHECKS; do
   RES="$RES $C:exit=$RC[$M]"
 done
 echo "$P/$K: demo_changed=$C1 demo_unchanged=$C0 $SUITE checks:$RES"
-rm -f $WT.err $WT.demo1 $WT.demo0 $WT.junit.xml $WT.junit.xml.2 $WT.chk
+rm -f $WT.err $WT.demo1 $WT.demo0 $WT.junit.xml $WT.junit.xml.2 $WT.junit.xml.3 $WT.chk
 git -C /repo worktree remove --force $WT
